@@ -30,7 +30,11 @@ RULE = ("Generated cases per tool, pushed through the real console entry "
         "flags x -D yaml|json, stdout and --output; yaml-diff - document "
         "pairs x -a/-o modes; yaml-validate - 1..3 files mixing valid, "
         "invalid and multi-document streams; yaml-paths - documents x "
-        "expressions x switches. Oracle: differential against the library "
+        "expressions x switches; multi-document streams (1-3 documents from a "
+        "6-document pool) - yaml-diff with -L/-R alone, together, missing "
+        "and out of range (file and stdin), yaml-paths printing "
+        "file/document-index decorated results for every document. "
+        "Oracle: differential against the library "
         "calls the other properties decide (query results, set/delete on a "
         "fresh copy, Merger, Differ report, strict loader, "
         "search_for_paths) plus exit-status rules; an uncaught exception is "
@@ -636,6 +640,174 @@ def paths_cases(texts, tmp, res, dl):
             return
 
 
+# -- multi-document streams (yaml-diff -L/-R, yaml-paths) ---------------------
+MD_POOL = ["a: 1\n", "a: 2\nb: 1\n", "- 1\n- a\n", "a:\n  b: 1\nc: 1\n",
+           "b: a\n", "a: 1\nb: a\n"]
+
+
+def _stream(idxs):
+    return "".join("---\n" + MD_POOL[i] for i in idxs)
+
+
+def _streams():
+    n = len(MD_POOL)
+    out = [[i] for i in range(n)]
+    out += [[i, j] for i in range(n) for j in range(n)]
+    out += [[i, (i + 1) % n, i] for i in range(n)]
+    out += [[i, (i + 2) % n, (i + 4) % n] for i in range(n)]
+    return out
+
+
+def multidoc_cases(tmp, res, dl, offset, part, parts):
+    from vp.props import c06
+    from yamlpath.differ.enums.diffactions import DiffActions
+    from yamlpath.commands.yaml_paths import search_for_paths
+    from yamlpath.eyaml import EYAMLProcessor
+    from yamlpath.path import SearchTerms
+    from yamlpath.enums import PathSearchMethods, PathSeparators
+    lf, rf = os.path.join(tmp, "ml.yaml"), os.path.join(tmp, "mr.yaml")
+    streams = _streams()
+    n = 0
+    # yaml-diff: every (L stream, R stream) x index choices, strided
+    for li, ls in enumerate(streams):
+        for ri, rs in enumerate(streams):
+            n += 1
+            if n % parts != part or (n // parts + offset) % 5:
+                continue
+            if dl.expired():
+                return
+            k = n // (parts * 5)
+            i = k % (len(ls) + 1)            # == len(ls): out of range
+            j = (k // 4) % (len(rs) + 1)
+            give_l = len(ls) > 1 or k % 3 == 0
+            give_r = len(rs) > 1 or k % 3 == 1
+            if k % 11 == 0 and len(ls) > 1:
+                give_l = False               # required index left out
+            if k % 13 == 0 and len(rs) > 1:
+                give_r = False
+            use_i = i if give_l else 0
+            use_j = j if give_r else 0
+            argv = (["-L", str(i)] if give_l else []) + \
+                (["-R", str(j)] if give_r else []) + ["-s"]
+            stdin_text = None
+            open(lf, "w").write(_stream(ls))
+            if k % 4 == 3:
+                argv += [lf, "-"]
+                stdin_text = _stream(rs)
+            else:
+                open(rf, "w").write(_stream(rs))
+                argv += [lf, rf]
+            res.evaluations += 1
+            case = {"tool": "yaml-diff", "multidoc": True, "argv": argv[:-2],
+                    "lhs": _stream(ls), "rhs": _stream(rs),
+                    "stdin": stdin_text is not None}
+            try:
+                out = run("yaml-diff", argv, stdin_text)
+            except CaseTimeout:
+                res.fail({"clause": "terminates", "tool": "yaml-diff"}, case,
+                         "")
+                continue
+            if crashed(out, res, case, "yaml-diff"):
+                continue
+            heads = [ln for ln in out.out.split("\n")
+                     if re.match(r"^[acds][0-9.]* ", ln)]
+            unusable = (len(ls) > 1 and not give_l) or \
+                (len(rs) > 1 and not give_r) or use_i >= len(ls) or \
+                use_j >= len(rs)
+            if unusable:
+                if out.code == 0 or heads:
+                    res.fail({"clause": "bad-document-index-is-refused",
+                              "tool": "yaml-diff"}, case,
+                             "exit %r, printed %r" % (out.code, heads))
+                else:
+                    res.label("yaml-diff:multidoc-refused")
+                continue
+            ldoc, _ = gdocs.load(MD_POOL[ls[use_i]])
+            rdoc, _ = gdocs.load(MD_POOL[rs[use_j]])
+            differ = c06.make_differ(ldoc, "position", "position")
+            differ.compare_to(rdoc)
+            entries = list(differ.get_report())
+            equal = canon(ldoc) == canon(rdoc)
+            want_heads = ["%s %s" % (e.action, e.path if str(e.path) else "-")
+                          for e in entries]
+            if (out.code == 0) != equal:
+                res.fail({"clause": "exit-0-iff-selected-documents-equal",
+                          "tool": "yaml-diff", "both-indexes": give_l and
+                          give_r}, case,
+                         "exit %r; L[%d] vs R[%d] equal=%r" % (
+                             out.code, use_i, use_j, equal))
+                continue
+            if sorted(heads) != sorted(want_heads):
+                res.fail({"clause": "prints-the-differ-entries",
+                          "tool": "yaml-diff", "multidoc": True}, case,
+                         "printed %r expected %r" % (heads, want_heads))
+                continue
+            res.nontrivial(key=["mdiff", ls, rs, argv[:-2]], sample=False)
+            res.label("yaml-diff:multidoc L=%d R=%d" % (len(ls), len(rs)))
+    # yaml-paths: one stream, every document's own results, in order
+    fname = os.path.join(tmp, "mp.yaml")
+    exprs = [("EQUALS", "=", "1"), ("EQUALS", "=", "a"),
+             ("STARTS_WITH", "^", "a"), ("EQUALS", "=", "b")]
+    for si, ids in enumerate(streams):
+        for ei, (method, sym, term) in enumerate(exprs):
+            n += 1
+            if n % parts != part:
+                continue
+            if dl.expired():
+                return
+            keys = ["", "-k", "-K"][(si + ei) % 3]
+            sep = ["dot", "fslash"][(si + ei) % 2]
+            via_stdin = (si + ei + offset) % 3 == 0
+            shown = "STDIN" if via_stdin else fname
+            want = []
+            for di, pi in enumerate(ids):
+                doc, _ = gdocs.load(MD_POOL[pi])
+                terms = SearchTerms(False, PathSearchMethods[method], ".",
+                                    term)
+                seen = []
+                for pth in search_for_paths(
+                        gdocs.logger(), EYAMLProcessor(gdocs.logger(), doc),
+                        doc, terms, PathSeparators.FSLASH if sep == "fslash"
+                        else PathSeparators.DOT, "", None,
+                        search_values=keys != "-K",
+                        search_keys=keys in ("-k", "-K"),
+                        search_anchors=False, include_key_aliases=True,
+                        include_value_aliases=False, decrypt_eyaml=False,
+                        expand_children=False, all_anchors={}):
+                    if str(pth) not in seen:
+                        seen.append(str(pth))
+                want += ["%s/%d: %s" % (shown, di, p_) for p_ in seen]
+            argv = ["-s", sym + term, "-t", sep, "-X"] + \
+                ([keys] if keys else [])
+            text = _stream(ids)
+            if via_stdin:
+                argv += ["-"]
+            else:
+                open(fname, "w").write(text)
+                argv += ["-S", fname]
+            res.evaluations += 1
+            case = {"tool": "yaml-paths", "multidoc": True, "argv": argv,
+                    "doc": text, "stdin": via_stdin}
+            try:
+                out = run("yaml-paths", argv, text if via_stdin else None)
+            except CaseTimeout:
+                res.fail({"clause": "terminates", "tool": "yaml-paths"},
+                         case, "")
+                continue
+            if crashed(out, res, case, "yaml-paths"):
+                continue
+            lines = [ln for ln in out.out.split("\n") if ln]
+            if out.code != 0 or lines != want:
+                res.fail({"clause": "prints-the-search-results",
+                          "tool": "yaml-paths", "multidoc": True}, case,
+                         "exit %r printed %r expected %r; stderr %r"
+                         % (out.code, lines, want, out.err[:200]))
+                continue
+            if len(want) >= 2:
+                res.nontrivial(key=["mpaths", ids, argv], sample=False)
+            res.label("yaml-paths:multidoc docs=%d" % len(ids))
+
+
 # -- subprocess sample -------------------------------------------------------
 def subprocess_sample(tmp, res):
     """The installed console scripts, as real processes."""
@@ -689,6 +861,9 @@ def plan(tier, seed):
             shards.append({"kind": tool, "part": i, "parts": nsh,
                            "offset": seed,
                            "scale": 4 if tier == "quick" else 24})
+    for i in range(4):
+        shards.append({"kind": "multidoc", "part": i, "parts": 4,
+                       "offset": seed})
     shards.append({"kind": "validate", "offset": seed})
     shards.append({"kind": "subprocess"})
     return shards
@@ -705,6 +880,10 @@ def run_shard(shard):
             return res
         if kind == "subprocess":
             subprocess_sample(tmp, res)
+            return res
+        if kind == "multidoc":
+            multidoc_cases(tmp, res, dl, shard["offset"], shard["part"],
+                           shard["parts"])
             return res
         texts = corpus_texts()
         scale = shard["scale"]
@@ -759,7 +938,10 @@ def replay(case):
     dl = Deadline(60)
     try:
         tool = case.get("tool")
-        if tool == "yaml-get":
+        if case.get("multidoc"):
+            for off in range(5):
+                multidoc_cases(tmp, res, dl, off, 0, 1)
+        elif tool == "yaml-get":
             get_cases(case["doc"], tmp, res, dl, 1, 0)
         elif tool == "yaml-set":
             set_cases(case["doc"], tmp, res, dl)
